@@ -8,7 +8,14 @@ git -C /repo apply "$PATCH"
 echo "=== SEED $LABEL ($ID) applied: $FILES; other modified files: $(git -C /repo status --short | tr '\n' ' ')"
 ./check $ID > /verif/build/seed_$LABEL.log 2>&1
 RC=$?
-for f in $FILES; do git -C /repo checkout -- "$f"; done
+for f in $FILES; do
+  for try in 1 2 3 4 5 6 7 8 9 10; do
+    git -C /repo checkout -- "$f" 2>/dev/null
+    if git -C /repo diff --quiet -- "$f"; then break; fi
+    sleep 3   # index.lock held by a concurrent git command: retry
+  done
+  git -C /repo diff --quiet -- "$f" || echo "WARNING: could not restore $f"
+done
 echo "SEED $LABEL rc=$RC: $(grep -E 'VIOLATION|KNOWN-FINDING' /verif/build/seed_$LABEL.log | cut -c1-200 | tr '\n' '|') wall=$(grep -o 'wall=[0-9.]*' /verif/build/seed_$LABEL.log | tail -1)"
 [ -f /verif/replays/$ID-1.json ] && cp /verif/replays/$ID-1.json /verif/build/seed_$LABEL.replay.json
 exit 0
